@@ -492,7 +492,7 @@ class C15(World):
     def run_histories(self):
         ch = self.ch
         sim = self.sim
-        n_ops = 1 + ch.pick("n_ops", 6)
+        n_ops = 1 + ch.pick("n_ops", 6) + (ch.geometric("n_ops.more", 2, 8) if ch.flag("n_ops.long", 0.15) else 0)
         clients = {}
         if ch.flag("hist.prefill", 0.5):
             # most interesting states need a profile to be held already: start from a warm cache
